@@ -173,6 +173,13 @@ def run(repo: Repo, rep: Report, tier: str) -> None:
     for spec in ("visit.exception_visitor:ExceptionVisitor.visit", "emitters.exceptions_emitter:ExceptionsEmitter._generate_for_codes"):
         fn = repo.func(spec)
         D_sets[spec] = _alias_generator_rules(fn, helpers, rep)
+    # ---------------------------------------------------------------- R6.6 the alias classes a client raises stay importable when the core is shared
+    # (the shared-core predicate of C11: a client that is wrongly judged "not shared" never enters the registry and loses its
+    #  exception classes when the next client is generated - its operations can then no longer raise the package's error classes)
+    from rules._reuse import reuse
+
+    reuse(repo, rep, "c11", {"R11.2": "R6.6"})
+
     # ---------------------------------------------------------------- R6.3 + agreement
     gen = repo.func("visit.endpoint.generators.response_handler_generator:EndpointResponseHandlerGenerator.generate_response_handling")
     E = _dispatch_rules(gen, helpers, rep, consts)
